@@ -96,8 +96,26 @@ Record nobs := mkNO {
   no_mean : Q; no_var : Q; no_sd : Q;   (* StdDev(): compared through its square *)
   no_min : Q; no_max : Q;
   no_median : Q; no_mode : Q; no_quant : list (result Q);
-  no_tol : Q                            (* model side: 1e-9 * (1 + max |x|) *)
+  no_tol : Q;                           (* model side: 1e-9 * (1 + max |x|), for the mean *)
+  no_vtol2 : Q                          (* model side: squared tolerance for the variance, var_tol2 *)
 }.
+(* Tolerance for Variance()/StdDev()^2 against the exact sample variance: RELATIVE to the variance,
+     |v_obs - v| <= 1e-9 * v  +  8 * n * u * kappa * v,     u = 2^-53,  kappa = sqrt (sum x^2 / m2)
+   (kappa = condition number of the variance, ~ |mean| / stddev when the magnitude dwarfs the spread).
+   n*u*kappa is the forward error bound of the updating (Welford/West) algorithm (Chan, Golub, LeVeque
+   1983); the textbook form (sum x^2 - n*mean^2)/(n-1) only meets n*u*kappa^2 and fails this test as
+   soon as kappa >~ 1e4 (it loses every digit at kappa ~ 1e8).  Kept sqrt-free by squaring:
+     (v_obs - v)^2 <= 2 * ((1e-9 v)^2 + (8 n u)^2 * (sum x^2) * m2 / (n-1)^2),   sum x^2 = m2 + n*mean^2. *)
+Definition var_tol2 (n : nat) (mean m2 : Q) : Q :=
+  match n with
+  | O | S O => 0
+  | S k => let var := m2 / qn k in
+           let cnu := 8 * qn n / inject_Z (2 ^ 53) in
+           Qred (2 * ((1 # 1000000000) * (1 # 1000000000) * var * var
+                      + cnu * cnu * (m2 + qn n * mean * mean) * m2 / (qn k * qn k)))
+  end.
+Definition close2 (tol2 a b : Q) : bool := Qle_bool ((a - b) * (a - b)) tol2.
+
 Definition qmaxabs (l : list Q) : Q := fold_left (fun a x => if Qltb a (Qabs x) then Qabs x else a) l 0.
 Definition n_obs (reverse : bool) (ps : list Q) (xs : list Q) (s : num) : nobs :=
   let srt := analyze reverse s in
@@ -105,7 +123,8 @@ Definition n_obs (reverse : bool) (ps : list Q) (xs : list Q) (s : num) : nobs :
        (match n_min s with Some m => m | None => maxfloat end)
        (match n_max s with Some m => m | None => - maxfloat end)
        (median srt) (mode srt) (map (quantile srt) ps)
-       (Qred ((1 # 1000000000) * (1 + qmaxabs xs))).
+       (Qred ((1 # 1000000000) * (1 + qmaxabs xs)))
+       (var_tol2 (n_cnt s) (n_mean s) (n_m2 s)).
 
 Definition rq_eqb (a b : result Q) : bool :=
   match a, b with Ok x, Ok y => Qeq_bool x y | Panic, Panic => true | _, _ => false end.
@@ -121,8 +140,8 @@ Definition nobs_eqb (a b : nobs) : bool :=
   let tol := no_tol a in
   N.eqb (no_count a) (no_count b) && N.eqb (no_err a) (no_err b) &&
   close tol (no_mean a) (no_mean b) &&
-  close (tol * tol * 1000000000) (no_var a) (no_var b) &&
-  close (tol * tol * 1000000000) (no_var a) (no_sd b * no_sd b) &&
+  close2 (no_vtol2 a) (no_var a) (no_var b) &&
+  close2 (no_vtol2 a) (no_var a) (no_sd b * no_sd b) &&
   Qeq_bool (no_min a) (no_min b) && Qeq_bool (no_max a) (no_max b) &&
   Qeq_bool (no_median a) (no_median b) && Qeq_bool (no_mode a) (no_mode b) &&
   rql_eqb (no_quant a) (no_quant b).
